@@ -159,6 +159,51 @@ def _calc(chop, L: float) -> dict:
     return out
 
 
+def _effective(given: dict) -> dict:
+    """the parameters a Chop holds after __post_init__ (count clamp, defaulted c2c), stated here independently"""
+    g = dict(given)
+    if "count" in g:
+        g["count"] = max(int(g["count"]), 1)
+    if len(g) < 2 and "c2c_expansion" not in g:
+        g["c2c_expansion"] = 1
+    return g
+
+
+def _inverted(g: dict) -> dict:
+    """the parameters after Chop.invert(), stated independently: sizes swapped, ratios reciprocal (may raise ZeroDivisionError)"""
+    out = {}
+    if "count" in g:
+        out["count"] = g["count"]
+    if "end_size" in g:
+        out["start_size"] = g["end_size"]
+    if "start_size" in g:
+        out["end_size"] = g["start_size"]
+    if "c2c_expansion" in g:
+        out["c2c_expansion"] = 1 / g["c2c_expansion"]
+    if "total_expansion" in g:
+        out["total_expansion"] = 1 / g["total_expansion"]
+    return out
+
+
+def _fields_arg(fields: dict) -> Optional[str]:
+    """observed fields (exact rational strings) as a chop argument of the line protocol"""
+    parts = []
+    for k in KEYS:
+        v = fields.get(k)
+        if v is None:
+            continue
+        if not isinstance(v, str):
+            return None
+        if k == "count":
+            f = Fraction(v)
+            if f.denominator != 1:
+                return None
+            parts.append(f"count:{int(f)}")
+        else:
+            parts.append(f"{k}:{v}")
+    return ",".join(parts) if parts else "-"
+
+
 def _given_kwargs(given: dict) -> dict:
     return {k: v for k, v in given.items()}
 
@@ -174,7 +219,10 @@ class C03(core.Check):
         "neighbours; contradictory / unrealisable sets (ratios on opposite sides of 1, progression too short, one cell with a "
         "smaller size); a boundary stream (length <= 0, sizes <= 0, size >= length, ratio 0, count < 1). Every case is also run "
         "on the inverted chop. grading cases: 1..3 chops with length ratios (valid and invalid) through Grading.add_chop and "
-        "Grading.inverted. Non-trivial = the implementation returned a grading or rejected for a modelled reason; distinct = "
+        "Grading.inverted (also: the same Chop object added twice, inverted in place in between; inverted/count read between additions "
+        "and twice at the end). history cases (round 2): ONE Chop object through 2..8 calls of calculate(L) / calculate(other length) / "
+        "invert() / attribute assignment, for every pair (fixed list: evaluate-reverse-evaluate on the same edge, double reversal, "
+        "alternating lengths, reverse first) and random ones; the model is run on the whole history (c03.hist). Non-trivial = the implementation returned a grading or rejected for a modelled reason; distinct = "
         "different (length, parameters)."
     )
     assumptions = [
@@ -208,6 +256,9 @@ class C03(core.Check):
             cases.append(self._gen_grading(rng))
         for _ in range(n // 3):
             cases.append(self._gen_rel(rng))
+        cases.extend(self._history_list())
+        for _ in range(n // 5):
+            cases.append(self._gen_history(rng))
         if tier == "thorough":
             cases.extend(self._exhaustive())
         return cases
@@ -399,6 +450,59 @@ class C03(core.Check):
                 vals[key] = self._off_limit(rng, L, vals[key], rr)
         return {"kind": "rel", "name": name, "L": L, "a": vals[a], "b": vals[b]}
 
+    # ---- histories on ONE Chop object (round 2): calculate / invert / calculate with equal and different lengths
+    @staticmethod
+    def _history_list() -> List[dict]:
+        """every pair, evaluated, reversed in place and evaluated again on the same edge (and the other basic orders)"""
+        out: List[dict] = []
+        givens = [
+            {"count": 10, "total_expansion": 4.0}, {"count": 25, "c2c_expansion": 1.15}, {"count": 12, "start_size": 0.05},
+            {"count": 12, "end_size": 0.05}, {"start_size": 0.013, "c2c_expansion": 1.2}, {"end_size": 0.013, "c2c_expansion": 0.9},
+            {"start_size": 0.03, "end_size": 0.11}, {"start_size": 0.03, "total_expansion": 3.0},
+            {"end_size": 0.03, "total_expansion": 0.4}, {"c2c_expansion": 1.1, "total_expansion": 3.0}, {"start_size": 0.07}, {"count": 7},
+        ]
+        for g in givens:
+            for L in (1.0, 2.5):
+                gg = {k: (v * L if k in ("start_size", "end_size") else v) for k, v in g.items()}
+                out.append({"kind": "history", "L": L, "given": gg, "ops": [["calc", L], ["invert"], ["calc", L]]})
+                out.append({"kind": "history", "L": L, "given": gg, "ops": [["calc", L], ["calc", L], ["invert"], ["invert"], ["calc", L]]})
+                out.append({"kind": "history", "L": L, "given": gg, "ops": [["calc", L], ["calc", 2 * L], ["calc", L], ["invert"], ["calc", 2 * L], ["calc", L]]})
+                out.append({"kind": "history", "L": L, "given": gg, "ops": [["invert"], ["calc", L], ["invert"], ["calc", L]]})
+        for g in ({"count": 5, "c2c_expansion": 0.0}, {"start_size": 0.1, "total_expansion": 0.0}, {"count": 3, "start_size": 0.1, "c2c_expansion": 0.0}):
+            out.append({"kind": "history", "L": 1.0, "given": dict(g), "ops": [["invert"], ["calc", 1.0], ["invert"], ["calc", 1.0]], "boundary": True})
+        return out
+
+    def _gen_history(self, rng: random.Random) -> dict:
+        while True:  # sizes inside the property's range (1e-4·L .. L) also after a ratio is reassigned
+            base = self._gen_chop(rng)
+            L = base["L"]
+            if all(1e-4 * L <= base["given"][k] <= L for k in ("start_size", "end_size") if k in base["given"]):
+                break
+        other = L * rng.choice([2.0, 0.5, 1.37, 1 + 1e-9])
+        ops: List[list] = [["calc", L], ["invert"], ["calc", L]] if rng.random() < 0.5 else []
+        cur = _effective(base["given"])
+        for _ in range(rng.randint(1 if ops else 2, 4)):
+            r = rng.random()
+            if r < 0.45:
+                ops.append(["calc", L])
+            elif r < 0.6:
+                ops.append(["calc", other])
+            elif r < 0.85 or not cur:
+                ops.append(["invert"])
+            else:  # assign a new value to a parameter the chop already has
+                key = rng.choice(sorted(cur))
+                if key == "count":
+                    val: Any = rng.randint(2, 60)
+                elif key in ("c2c_expansion", "total_expansion"):
+                    val = self._ratio(rng)
+                else:
+                    val = L * 10 ** rng.uniform(-2, -0.3)
+                ops.append(["set", key, val])
+                ops.append(["calc", L])
+        if not any(o[0] == "calc" for o in ops):
+            ops.append(["calc", L])
+        return {"kind": "history", "L": L, "given": base["given"], "ops": ops}
+
     def _gen_boundary(self, rng: random.Random) -> dict:
         L = rng.choice([1.0, 0.25, 40.0])
         other = rng.choice(
@@ -435,6 +539,10 @@ class C03(core.Check):
                 q = rng.choice([0.0, -0.5, 1.5, 1.0000001])
             c = self._gen_chop(rng, L * q if q > 0 else L)["given"]  # sizes in proportion to the sub-length
             chops.append({"ratio": q, "given": c})
+        # round 2: the SAME chop object added again (as it is, or after chop.invert()), same sub-length
+        if chops and rng.random() < 0.4:
+            i = rng.randrange(len(chops))
+            chops.append({"ratio": chops[i]["ratio"], "given": chops[i]["given"], "same_as": i, "invert_first": rng.random() < 0.6})
         return {"kind": "grading", "L": L, "chops": chops}
 
     def _exhaustive(self) -> List[dict]:
@@ -472,6 +580,26 @@ class C03(core.Check):
                     return {"ok": True, "ret": _num(ret), "type": type(ret).__name__}
                 except Exception as e:
                     return {"ok": False, "err": type(e).__name__, "msg": str(e)[:120]}
+        if case["kind"] == "history":
+            try:
+                chop = Chop(**_given_kwargs(case["given"]))
+            except Exception as e:
+                return {"ctor": type(e).__name__}
+            steps = []
+            for op in case["ops"]:
+                if op[0] == "calc":
+                    steps.append({"op": "calc", "L": op[1], "run": _calc(chop, op[1])})
+                elif op[0] == "set":
+                    setattr(chop, op[1], op[2])  # plain attribute assignment on the dataclass
+                    steps.append({"op": "set", "fields": _fields(chop)})
+                else:
+                    err = None
+                    try:
+                        chop.invert()
+                    except Exception as e:
+                        err = type(e).__name__
+                    steps.append({"op": "invert", "err": err, "fields": _fields(chop)})
+            return {"init": _fields(chop), "steps": steps}
         if case["kind"] == "chop":
             L = case["L"]
             try:
@@ -492,12 +620,24 @@ class C03(core.Check):
         L = case["L"]
         g = Grading(L)
         rows = []
+        objs: List[Any] = []
         for ch in case["chops"]:
+            pre: Dict[str, Any] = {}
             try:
-                chop = Chop(length_ratio=ch["ratio"], **_given_kwargs(ch["given"]))
+                if "same_as" in ch and ch["same_as"] < len(objs):
+                    chop = objs[ch["same_as"]]  # the very same object again
+                    if ch.get("invert_first"):
+                        try:
+                            chop.invert()
+                        except Exception as e:
+                            pre["invert_err"] = type(e).__name__
+                else:
+                    chop = Chop(length_ratio=ch["ratio"], **_given_kwargs(ch["given"]))
             except Exception as e:
                 rows.append({"ctor": type(e).__name__})
                 break
+            objs.append(chop)
+            pre["cur"] = _fields(chop)
             log, restore = _logged_relations()
             try:
                 with warnings.catch_warnings():
@@ -513,7 +653,14 @@ class C03(core.Check):
                 restore()
             row["log"] = [{"rel": e["rel"], "ret": (_num(e["ret"]) if "ret" in e else None), "exc": e.get("exc"),
                            "args": [_num(a) for a in e["args"]]} for e in log]
+            row.update(pre)
             rows.append(row)
+            if row["ok"]:
+                try:  # reading the derived views between two additions must not freeze them
+                    _ = g.inverted.specification
+                    _ = g.count
+                except Exception as e:
+                    row["mid_read_err"] = type(e).__name__
             if not row["ok"]:
                 break
         spec = [[_num(d[0]), d[1], _num(d[2])] for d in g.specification]
@@ -525,6 +672,9 @@ class C03(core.Check):
             res["count"] = g.count
             res["inv_count"] = gi.count
             res["orig_after"] = [[_num(d[0]), d[1], _num(d[2])] for d in g.specification]
+            gi2 = g.inverted  # read twice: the same answer, the original still untouched
+            res["inv_again"] = [[_num(d[0]), d[1], _num(d[2])] for d in gi2.specification]
+            res["orig_after_2"] = [[_num(d[0]), d[1], _num(d[2])] for d in g.specification]
         except Exception as e:
             res["inv_err"] = type(e).__name__
         return res
@@ -635,9 +785,34 @@ class C03(core.Check):
         orc, tol, _ = self._oracle_and_tol(fake)
         return [("rel", f"c03.rel {case['name']} {_rat(case['L'])} {_rat(case['a'])} {_rat(case['b'])} {orc} {tol}")]
 
+    def _history_request(self, case: dict, impl: dict) -> List[Tuple[str, str]]:
+        if "ctor" in impl:
+            return []
+        arg = self._chop_arg(case["given"])
+        if arg is None or (isinstance(case["given"].get("count"), int) and case["given"]["count"] > 1500):
+            return []
+        parts = []
+        for st in impl["steps"]:
+            if st["op"] == "calc":
+                if self._too_large(st["run"]):
+                    return []
+                orc, tol, _ = self._oracle_and_tol(st["run"])
+                parts.append(f"calc|{_rat(st['L'])}|{orc}|{tol}")
+            elif st["op"] == "set":
+                op = case["ops"][len(parts)]
+                parts.append(f"set|{op[1]}|{op[2] if isinstance(op[2], int) else _rat(op[2])}")
+            else:
+                obs = _fields_arg(st["fields"])
+                if obs is None:
+                    return []
+                parts.append(f"inv|{obs}")
+        return [("hist", f"c03.hist {arg} " + ";".join(parts))]
+
     def _tagged(self, case: dict, impl: Any) -> List[Tuple[str, str]]:
         if case["kind"] == "rel":
             return self._rel_request(case, impl)
+        if case["kind"] == "history":
+            return self._history_request(case, impl)
         if case["kind"] == "chop":
             if "ctor" in impl:
                 return []
@@ -647,6 +822,12 @@ class C03(core.Check):
             if "ctor" in row:
                 continue
             arg = self._chop_arg(ch["given"])
+            if "same_as" in ch:  # the object was used (and perhaps inverted in place) before: its present fields
+                arg = _fields_arg(row.get("cur", {}))
+                if ch.get("invert_first") and "invert_err" not in row and "cur" in impl["rows"][ch["same_as"]]:
+                    before = _fields_arg(impl["rows"][ch["same_as"]]["cur"])
+                    if before is not None and arg is not None:
+                        reqs.append((f"inv{i}", f"c03.hist {before} inv|{arg}"))
             if arg is None or self._too_large(row):
                 continue
             orc, tol, _ = self._oracle_and_tol(row)
@@ -771,6 +952,29 @@ class C03(core.Check):
             if kind == "needs-oracle" and case["name"].startswith("count<") and not case["name"].endswith("+start_size"):
                 return f"{case['name']} raised {impl['err']} although the model finds the count computable"
             return None
+        if case["kind"] == "history":
+            if not tagged:
+                return None
+            answers = model[0].split(" || ")
+            if len(answers) != len(impl["steps"]):
+                return f"history: {len(impl['steps'])} steps, model answers {len(answers)}: {model[0][:200]}"
+            for i, (st, ans) in enumerate(zip(impl["steps"], answers)):
+                if st["op"] == "calc":
+                    why = self._cmp_calc(st["run"], ans, f"history {case['ops']} step {i} calculate({st['L']})", st["L"])
+                    if why:
+                        return why
+                elif st["op"] == "set":
+                    mv = self._parse_vals(ans.split()[1:]) if ans.startswith("ok") else None
+                    for k in KEYS:
+                        iv = st["fields"][k]
+                        if mv is None or (iv is None) != (mv.get(k) is None) or (iv is not None and (not isinstance(iv, str) or Fraction(iv) != mv[k])):
+                            return f"history step {i}: fields after assignment {st['fields']}, model {ans[:200]}"
+                else:
+                    if ans.startswith("fail"):
+                        return f"history step {i}: fields after invert() {st['fields']}, model {ans[:200]}"
+                    if (st["err"] is None) != ans.startswith("ok"):
+                        return f"history step {i}: invert() {'raises ' + st['err'] if st['err'] else 'succeeds'}, model answers {ans[:120]}"
+            return None
         if case["kind"] == "chop":
             for (tag, req), ans in zip(tagged, model):
                 if tag == "init":
@@ -813,7 +1017,10 @@ class C03(core.Check):
             return None
         # grading
         for (tag, req), ans in zip(tagged, model):
-            if tag.startswith("add"):
+            if tag.startswith("inv") and tag != "inv":
+                if not ans.startswith("ok"):
+                    return f"add_chop of an inverted chop object: fields {impl['rows'][int(tag[3:])].get('cur')}, model {ans[:200]}"
+            elif tag.startswith("add"):
                 row = impl["rows"][int(tag[3:])]
                 tok = ans.split()
                 if row["ok"]:
@@ -1051,7 +1258,60 @@ class C03(core.Check):
             and L > 0 and 0 < g["start_size"] < L and abs(g["start_size"] - L) / L >= LIB_TOL
         )
 
-    def _oracle_chop(self, L: float, given: dict, impl: dict, boundary: bool) -> List[dict]:
+    def _oracle_history(self, case: dict, impl: dict) -> List[dict]:
+        """One Chop object through a sequence of calculate / invert calls.  Every calculate must answer for the parameters
+        the object holds at that moment (computed here from the constructor arguments and the number of inversions, not
+        read from the object), on the length it is given; two consecutive evaluations on the same length give the same
+        answer when the parameters are the same, and count / reciprocal expansion when one inversion lies between."""
+        out: List[dict] = []
+        if "ctor" in impl:
+            return out
+        cur = _effective(case["given"])
+        prev = None  # (length, parameters, run, number of inversions so far)
+        flips = 0
+        for i, (op, st) in enumerate(zip(case["ops"], impl["steps"])):
+            if op[0] == "set":
+                cur = dict(cur)
+                cur[op[1]] = op[2]
+                prev = None
+                continue
+            if op[0] == "invert":
+                try:
+                    cur = _inverted(cur)
+                    flips += 1
+                    if st["err"]:
+                        out.append({"site": "Chop.invert:raises", "what": f"{case['given']} {case['ops'][: i + 1]}: {st['err']}"})
+                        return out
+                except ZeroDivisionError:
+                    return out  # zero ratio: nothing more is claimed about this object
+                continue
+            L = op[1]
+            run = st["run"]
+            single = self._oracle_chop(L, cur, {"run": run}, False, reversal=False)
+            for v in single:
+                v["what"] = f"after {case['ops'][:i]} on one Chop({case['given']}): " + v["what"]
+            out.extend(single)
+            if single:
+                return out
+            if prev is not None and prev[0] == L and run["ok"] and prev[2]["ok"] and len(cur) <= 2:
+                if (flips - prev[3]) % 2 == 1:
+                    rev = self._oracle_chop(L, prev[1], {"run": prev[2], "inv_run": run}, False)
+                    for v in rev:
+                        v["what"] = f"steps {case['ops'][: i + 1]} on one Chop({case['given']}): " + v["what"]
+                    out.extend(rev)
+                else:
+                    n1, n2 = prev[2]["count"], run["count"]
+                    T1, T2 = float(Fraction(prev[2]["total"])), float(Fraction(run["total"]))
+                    if n1 != n2 or abs(math.log(T1) - math.log(T2)) > 1e-9:
+                        out.append({"site": f"Chop.calculate[{self._pairname(cur)}]:same-parameters-same-length-different-answer",
+                                    "what": f"steps {case['ops'][: i + 1]} on one Chop({case['given']}): ({n1}, {T1}) then ({n2}, {T2})",
+                                    "observed": [n2, T2], "expected": [n1, T1]})
+                if out:
+                    return out
+            prev = (L, dict(cur), run, flips)
+        return out
+
+    def _oracle_chop(self, L: float, given: dict, impl: dict, boundary: bool, reversal: bool = True) -> List[dict]:
         tag = self._pairname(given)
         out: List[dict] = []
         if "ctor" in impl:
@@ -1082,7 +1342,7 @@ class C03(core.Check):
                             "observed": run["err"], "expected": "a grading"})
             return out
         # reversal
-        if len(g) > 2 or self._fragile(g) or out:
+        if not reversal or len(g) > 2 or self._fragile(g) or out:
             return out
         big = [g[k] for k in ("start_size", "end_size") if k in g]
         if "count" not in g and len(g) == 2 and "c2c_expansion" not in g:
@@ -1198,15 +1458,30 @@ class C03(core.Check):
     def oracle(self, case: dict, impl: Any) -> List[dict]:
         if case["kind"] == "rel":
             return self._oracle_rel(case, impl)
+        if case["kind"] == "history":
+            return self._oracle_history(case, impl)
         if case["kind"] == "chop":
             return self._oracle_chop(case["L"], case["given"], impl, bool(case.get("boundary")))
         out: List[dict] = []
         L = case["L"]
         n_ok = 0
+        cur_params: List[Optional[dict]] = []  # what each chop object holds when it is added (stated here, not read back)
         for ch, row in zip(case["chops"], impl["rows"]):
             q = ch["ratio"]
             if "ctor" in row:
                 break
+            if "same_as" in ch and ch["same_as"] < len(cur_params):
+                p0 = cur_params[ch["same_as"]]
+                try:
+                    p1 = None if p0 is None else (_inverted(p0) if ch.get("invert_first") else dict(p0))
+                except ZeroDivisionError:
+                    p1 = None
+                if p1 is not None and ch.get("invert_first"):
+                    cur_params[ch["same_as"]] = p1  # the shared object itself has changed
+                cur_params.append(p1)
+            else:
+                e0 = _effective(ch["given"])
+                cur_params.append({k: (float(v) if k != "count" else v) for k, v in e0.items()})
             valid_ratio = 0 < q <= 1
             if row["ok"]:
                 n_ok += 1
@@ -1216,6 +1491,10 @@ class C03(core.Check):
                 if Fraction(row["ratio"]) != Fraction(q):
                     out.append({"site": "Grading.add_chop:length-ratio-not-stored", "what": f"{q} -> {row['ratio']}"})
                 g = {k: (float(v) if k != "count" else v) for k, v in ch["given"].items()}
+                if "same_as" in ch:
+                    g = cur_params[-1]
+                    if g is None:
+                        continue
                 if self._one_cell_start(L * q, g):
                     out.append({"site": FINDING_COUNT1, "what": f"Grading.add_chop on sub-length {L * q}, {ch['given']}: accepted as "
                                 f"{row['count']} cell(s), total expansion {row['total']}", "expected": "an exception"})
@@ -1224,17 +1503,22 @@ class C03(core.Check):
                     vs, _ = self._spec_violations(L * q, g, row["count"], row["total"], "Grading.add_chop:" + self._pairname(g))
                     out.extend(vs)
             else:
-                if valid_ratio and self._must_accept(L * q, {k: (float(v) if k != "count" else v) for k, v in ch["given"].items()}):
+                if valid_ratio and "same_as" not in ch and self._must_accept(L * q, {k: (float(v) if k != "count" else v) for k, v in ch["given"].items()}):
                     out.append({"site": "Grading.add_chop:realisable-chop-rejected", "what": f"L={L}, ratio {q}, {ch['given']}: {row['err']}"})
                 break
+        for row in impl["rows"]:
+            if "mid_read_err" in row:
+                out.append({"site": "Grading.inverted:raises", "what": f"read after an addition: {row['mid_read_err']}"})
         if impl["n_spec"] != n_ok:
             out.append({"site": "Grading.add_chop:number-of-divisions", "what": f"{n_ok} chops accepted, {impl['n_spec']} divisions"})
         if "inv_err" in impl:
             out.append({"site": "Grading.inverted:raises", "what": impl["inv_err"]})
             return out
         spec, inv = impl["spec"], impl["inv"]
-        if impl["orig_after"] != spec:
+        if impl["orig_after"] != spec or impl.get("orig_after_2", spec) != spec:
             out.append({"site": "Grading.inverted:modifies-the-original", "what": f"{spec} -> {impl['orig_after']}"})
+        if impl.get("inv_again", inv) != inv:
+            out.append({"site": "Grading.inverted:second-read-differs", "what": f"{inv} then {impl['inv_again']}"})
         if len(inv) != len(spec):
             out.append({"site": "Grading.inverted:number-of-divisions", "what": f"{len(spec)} -> {len(inv)}"})
             return out
@@ -1256,13 +1540,18 @@ class C03(core.Check):
     def nontrivial_key(self, case, impl):
         import json
 
-        if case["kind"] == "chop" and "ctor" in impl:
+        if case["kind"] in ("chop", "history") and "ctor" in impl:
             return None
         return json.dumps(case, sort_keys=True)
 
     def classify(self, case, impl):
         if case["kind"] == "rel":
             return f"rel:{case['name']}:" + ("missing" if impl.get("missing") else "ok" if impl["ok"] else impl["err"])
+        if case["kind"] == "history":
+            if "ctor" in impl:
+                return "history:constructor-raises"
+            shape = "".join({"calc": "c", "invert": "i", "set": "s"}[o[0]] for o in case["ops"])
+            return f"history:{self._pairname(case['given'])}:{shape[:6]}"
         if case["kind"] == "grading":
             return f"grading:{len(case['chops'])}-chops:" + ("inverted" if "inv" in impl else "error")
         if "ctor" in impl:
